@@ -193,7 +193,7 @@ def run(ctx):
         found = None
         for n in thir.find(root, "if"):
             d = pathx.desc(n["c"])
-            if "contains_key" in d and "Terminate" in d and "Interrupt" in d:
+            if "contains_key" in d and "Terminate" in d and "Interrupt" in d and not d.startswith("Not "):
                 found = (n, d)
                 break
         if found is None:
